@@ -6,9 +6,9 @@
 package main
 
 import (
-	"errors"
 	"bufio"
 	"context"
+	"errors"
 	"fmt"
 	"net"
 	"os"
@@ -17,21 +17,33 @@ import (
 	"time"
 
 	"github.com/gobwas/ws"
+	"github.com/gobwas/ws/wsutil"
 
 	"verifmc/explore"
 	"verifmc/hs"
 )
 
 type cfg struct {
-	ctxKind string        // background, cancellable, deadline
-	timeout string        // none, short, long   (relative to the ctx deadline of 10s: 5s / 20s)
-	peer    string        // responsive1, responsive3, silent0, silent1, error400, eof
-	scheme  string        // ws, wss
-	preCancelled bool     // context already cancelled when Dial is called
+	ctxKind      string // background, cancellable, deadline
+	timeout      string // none, short, long   (relative to the ctx deadline of 10s: 5s / 20s)
+	peer         string // responsive1, responsive3, silent0, silent1, error400, eof
+	scheme       string // ws, wss
+	preCancelled bool   // context already cancelled when Dial is called
+	// via: "" = ws.Dialer.Dial; "debug" = through wsutil.DebugDialer with both callbacks set
+	via string
+	// partialWrites: a write cut by a deadline has transferred half of its bytes
+	partialWrites bool
 }
 
 func (c cfg) String() string {
-	return fmt.Sprintf("ctx=%s timeout=%s peer=%s scheme=%s precancelled=%v", c.ctxKind, c.timeout, c.peer, c.scheme, c.preCancelled)
+	s := fmt.Sprintf("ctx=%s timeout=%s peer=%s scheme=%s precancelled=%v", c.ctxKind, c.timeout, c.peer, c.scheme, c.preCancelled)
+	if c.via != "" {
+		s += " via=" + c.via
+	}
+	if c.partialWrites {
+		s += " partial-writes"
+	}
+	return s
 }
 
 const ctxDeadlineAfter = 10 * time.Second
@@ -54,8 +66,13 @@ type dialOutcome struct {
 }
 
 // runDial is the goroutine that calls the library (its name is looked for in stack dumps).
-func runDial(d ws.Dialer, ctx context.Context, url string, out *dialOutcome, done chan struct{}) {
-	out.conn, out.br, out.hs, out.err = d.Dial(ctx, url)
+func runDial(d ws.Dialer, via string, ctx context.Context, url string, out *dialOutcome, done chan struct{}) {
+	if via == "debug" {
+		dd := wsutil.DebugDialer{Dialer: d, OnRequest: func([]byte) {}, OnResponse: func([]byte) {}}
+		out.conn, out.br, out.hs, out.err = dd.Dial(ctx, url)
+	} else {
+		out.conn, out.br, out.hs, out.err = d.Dial(ctx, url)
+	}
 	close(done)
 }
 
@@ -101,7 +118,8 @@ func execute(c *explore.Chooser, cf cfg, t *explore.T) *explore.Fail {
 	d.TLSClient = func(conn net.Conn, hostname string) net.Conn { return conn }
 	var out dialOutcome
 	done := make(chan struct{})
-	go runDial(d, ctx, cf.scheme+"://example.com/chat", &out, done)
+	w.partialWrites = cf.partialWrites
+	go runDial(d, cf.via, ctx, cf.scheme+"://example.com/chat", &out, done)
 	cleanup := func() {
 		w.abort()
 		<-done
@@ -286,6 +304,14 @@ func execute(c *explore.Chooser, cf cfg, t *explore.T) *explore.Fail {
 		// error must be the context's error. A handshake that failed for a reason of its own
 		// (error response, EOF, malformed answer) keeps that error: the statement's clause is
 		// read as being about failures caused by the context ending (DESIGN C20/O).
+		// the caller's context has ended and an I/O call of the handshake was cut short by a
+		// deadline (the one the library put on the conn in reaction): the failure is the
+		// context's, whatever byte count or wrapping the layers in between make of it. (With a
+		// background context and only a dial timeout, the transport's own timeout error is what
+		// Dial reports; the statement does not name that error.)
+		if w.deadlineCuts > 0 && hc != nil && hc.err != nil && !(out.err == context.Canceled || out.err == context.DeadlineExceeded || (hc != nil && out.err == hc.err)) {
+			return explore.Failf("io-cut-by-deadline-but-error-is-not-the-contexts:"+cls, "err=%v (%T); %d conn call(s) ended by the deadline\ntrace: %s\nconn calls: %v", out.err, out.err, w.deadlineCuts, tr, w.log)
+		}
 		if out.err == errCause || errors.Is(out.err, errCause) {
 			return explore.Failf("cause-returned-instead-of-context-error:"+cls, "err=%v ctx.Err()=%v\ntrace: %s", out.err, hc.err, tr)
 		}
@@ -368,6 +394,11 @@ func main() {
 							continue
 						}
 						cfgs = append(cfgs, cfg{ctxKind: ck, timeout: to, peer: p, scheme: sch})
+						if sch == "ws" && (p == "responsive1" || p == "silent0" || p == "silent1") && to != "long" {
+							cfgs = append(cfgs, cfg{ctxKind: ck, timeout: to, peer: p, scheme: sch, via: "debug"},
+								cfg{ctxKind: ck, timeout: to, peer: p, scheme: sch, partialWrites: true},
+								cfg{ctxKind: ck, timeout: to, peer: p, scheme: sch, via: "debug", partialWrites: true})
+						}
 						if ck != "background" && sch == "ws" && (p == "responsive1" || p == "silent0") {
 							cfgs = append(cfgs, cfg{ctxKind: ck, timeout: to, peer: p, scheme: sch, preCancelled: true})
 						}
